@@ -70,6 +70,20 @@ def _task_worker(args):
         out['wall'] = round(time.time() - t0, 3)
         return out
     except Exception as e:
+        tb = traceback.extract_tb(e.__traceback__)
+        if t['kind'] == 'bounded' and tb and '/elftools/' in tb[-1].filename.replace(os.sep, '/'):
+            # a bounded differential feeds the real code inputs generated from the specification; an exception RAISED BY THE
+            # REAL CODE that the harness did not anticipate is a behaviour of the library on such an input, not a defect of
+            # the checker: reported as a refuted bounded obligation with the traceback (an exception raised in /verif code is
+            # still a checker error)
+            where = '%s:%d in %s' % (tb[-1].filename, tb[-1].lineno, tb[-1].name)
+            nat = dict(confirmed=True, how='bounded differential %s (seed %r, tier %s): the real code raised on a generated input' % (t['name'], seed, tier),
+                       input='re-run: ./check <property> --tier %s --only %s' % (tier, t['name']), observed='%r at %s' % (e, where),
+                       expected='the answer the specification gives for the generated input')
+            ob = dict(name='bounded:%s:real code raised' % t['name'], kind='bounded', verdict='refuted', backend='ground-eval(seeded differential)',
+                      time=0.0, bounded=True, detail=('%r at %s\n%s' % (e, where, traceback.format_exc()))[:1500], native=nat)
+            return dict(name=t['name'], kind=t['kind'], error=None, obligations=[ob], assumptions=[],
+                        functions=[dict(function=t['name'], kind='bounded differential')], wall=round(time.time() - t0, 3))
         return dict(name=t['name'], kind=t['kind'], error='crash: %s\n%s' % (e, traceback.format_exc()),
                     obligations=[], assumptions=[], wall=round(time.time() - t0, 3))
 
